@@ -5,7 +5,7 @@ FUNCTIONS = UTILS + INDEX_SEARCH + ["tinyflux.database._index_is_exact_for"] + [
 ASSUMED = ["bisect.bisect_left", "bisect.bisect_right"] + ["tinyflux.storages.Storage." + f for f in ("can_read", "__len__", "_deserialize_storage_item", "_deserialize_measurement", "read")]
 STANDIN = "standins/dbdiff.py"
 TRUSTED = TRUSTED_CORE + [STORAGE_ASSUMED, QUERY_ASSUMED, TIME_ASSUMED, "assumed contract of bisect_left/right (C18)",
-                          "NOT under contract in this round (bounded stand-in only): TinyFlux.select, Measurement forwarding methods, termination of the recursion in _search_helper"]
+                          "NOT under contract (bounded stand-in only): TinyFlux.select; not proved: termination of the recursion in _search_helper (the Measurement forwarders are proved under C10)"]
 ASSUMPTIONS = [A_ALIAS, "A-gen: generator arguments are consumed without observable interleaving",
                "measurement filter '' behaves like None in the code; contracts follow the code there (recorded under C10 as KF-19)"]
 FUNCTIONS = FUNCTIONS + MEM_REFINEMENT  # MemoryStorage refines the abstract Storage contract
